@@ -115,6 +115,13 @@ A_TooShort(ev, m) ==
   ev.rbnull = 0 /\ m # "none" /\ WellFormed(ev) /\ ev.nrbytes >= 0 /\ Size(ev) >= G!GENSALT_OUTPUT_SIZE
   /\ G!DocCost(m, ev.cd).k # "reject" /\ LET mo == Model(ev) IN ~mo.ok /\ mo.err = G!EINVAL
 C12_TooShort(ev, m) == A_TooShort(ev, m) => (~Success(ev) /\ ev.errno = G!EINVAL)
+\* "given 16 or more random bytes and a buffer of the documented size it has at least the method's standard size":
+\* such a call SUCCEEDS (for an accepted count, and for as many bytes as the exact model can place in the buffer) --
+\* what the salt then looks like is C12_Salt's business
+A_StdSalt(ev, m) ==
+  ev.rbnull = 0 /\ m # "none" /\ WellFormed(ev) /\ ev.nrbytes >= 16 /\ ev.nrbytes <= 256 /\ Size(ev) >= G!GENSALT_OUTPUT_SIZE
+  /\ G!DocCost(m, ev.cd).k # "reject" /\ LET mo == Model(ev) IN mo.ok
+C12_StdSalt(ev, m) == A_StdSalt(ev, m) => Success(ev)
 \* bytes the caller supplied are the only source: the OS is asked only when rbytes is NULL
 C12_NoAutoEntropy(ev) == ev.rbnull = 0 => ev.entcalls = 0
 \* ---- C13 ----------------------------------------------------------------
@@ -162,7 +169,7 @@ C14_RA(ev) == ev.e = "gensalt_ra" =>
 
 \* vacuity guard: how often the antecedent of each relational predicate held (cnt.ant; tools/props.py REQUIRED_ANTS)
 AntNames == {"Success", "Deterministic", "NullIsPreferred", "Flip", "EntropyFresh", "Monotone", "Full", "SmallSize", "CostReject",
-             "AutoEntropy", "NonzeroErrno", "GensaltRA", "TooShort"}
+             "AutoEntropy", "NonzeroErrno", "GensaltRA", "TooShort", "StdSalt"}
 Ants(ev) ==
   LET m == MethodOfEv(ev) IN
   (IF Success(ev) THEN {"Success"} ELSE {}) \cup (IF A_Deterministic(ev) THEN {"Deterministic"} ELSE {})
@@ -175,6 +182,7 @@ Ants(ev) ==
   \cup (IF "ein" \in DOMAIN ev /\ ev.ein # 0 THEN {"NonzeroErrno"} ELSE {})
   \cup (IF ev.e = "gensalt_ra" THEN {"GensaltRA"} ELSE {})
   \cup (IF WellFormed(ev) /\ A_TooShort(ev, m) THEN {"TooShort"} ELSE {})
+  \cup (IF A_StdSalt(ev, m) THEN {"StdSalt"} ELSE {})
 AddAnts(f, a) == [n \in AntNames |-> f[n] + (IF n \in a THEN 1 ELSE 0)]
 V(p, n) == [l |-> l, p |-> p, n |-> n]
 Chk(ok, p, n) == IF ok THEN {} ELSE {V(p, n)}
@@ -198,6 +206,7 @@ JudgeGs(ev) ==
      \cup Chk(C18_NullIsPreferred(ev), "C18", "NullIsPreferred")
      \cup Chk(C12_Flip(ev), "C12", "Flip") \cup Chk(C12_Entropy(ev), "C12", "Entropy")
      \cup Chk(C12_TooShort(ev, m), "C12", "TooShort") \cup Chk(C12_NoAutoEntropy(ev), "C12", "NoAutoEntropy")
+     \cup Chk(C12_StdSalt(ev, m), "C12", "StdSalt")
      \cup Chk(C13_Local(ev), "C13", "Local") \cup Chk(C13_Monotone(ev), "C13", "Monotone")
      \cup Chk(C13_Full(ev), "C13", "Full") \cup Chk(C13_Enough(ev), "C13", "Enough")
      \cup Chk(C13_RangeMeansSmall(ev), "C13", "RangeMeansSmall")
